@@ -65,12 +65,12 @@ package fallback
 //@ func BuilderWithResult
 //@   builder
 //@   let c := asref(result_0, *config)
-//@   ensures [C10.builder.with_result_closure] typeis(result_0, *config) && clofn(c.fn) == fnid("BuilderWithResult$1")
+//@   ensures [C10.builder.with_result_closure] typeis(result_0, *config) && fresh(c) && clofn(c.fn) == fnid("BuilderWithResult$1") && c.onFallbackExecuted == nil && c.BaseFailurePolicy != nil && len(c.failureConditions) == 0
 //@   modifies nothing
 //@ func BuilderWithError
 //@   builder
 //@   let c := asref(result, *config)
-//@   ensures [C10.builder.with_error_closure] typeis(result, *config) && clofn(c.fn) == fnid("BuilderWithError$1")
+//@   ensures [C10.builder.with_error_closure] typeis(result, *config) && fresh(c) && clofn(c.fn) == fnid("BuilderWithError$1") && cellof(clobind(c.fn, 0), error) == err && c.onFallbackExecuted == nil && c.BaseFailurePolicy != nil && len(c.failureConditions) == 0
 //@   modifies nothing
 //@ func (*config).OnFallbackExecuted
 //@   builder
@@ -131,3 +131,23 @@ package fallback
 //@   requires c != nil && c.BaseFailurePolicy != nil
 //@   ensures [C16.fallback.listener_registered_onfailure+C10.builder.onfailure] c.onFailure == listener && c.onSuccess == old(c.onSuccess) && result == asiface(c)
 //@   modifies c.BaseFailurePolicy.onFailure
+
+// convenience constructors: WithX is BuilderWithX(x).Build()
+//@ func WithFunc
+//@   builder
+//@   dyntype FallbackBuilder *config only
+//@   let tc := asref(result, *fallback).config
+//@   ensures [C10.with_func] result != nil && typeis(result, *fallback) && tc != nil && tc.fn == fallbackFunc && tc.onFallbackExecuted == nil && tc.BaseFailurePolicy != nil && len(tc.failureConditions) == 0 && !tc.errorsChecked
+//@   modifies nothing
+//@ func WithResult
+//@   builder
+//@   dyntype FallbackBuilder *config only
+//@   let tc := asref(result_0, *fallback).config
+//@   ensures [C10.with_result] result_0 != nil && typeis(result_0, *fallback) && tc != nil && clofn(tc.fn) == fnid("BuilderWithResult$1") && tc.onFallbackExecuted == nil
+//@   modifies nothing
+//@ func WithError
+//@   builder
+//@   dyntype FallbackBuilder *config only
+//@   let tc := asref(result, *fallback).config
+//@   ensures [C10.with_error] result != nil && typeis(result, *fallback) && tc != nil && clofn(tc.fn) == fnid("BuilderWithError$1") && cellof(clobind(tc.fn, 0), error) == err && tc.onFallbackExecuted == nil
+//@   modifies nothing
